@@ -161,4 +161,96 @@ theorem height_main (st : Static) (c c' : Cfg) (h : stepMain st c = some c') :
       simp only [stepMain, hc] at h
       cases h; exact ⟨rfl, Or.inr ⟨rfl, Or.inr rfl⟩⟩
 
+/-! ### a sleep of the commanding thread takes exactly its duration -/
+
+theorem stepMain_tMain (st : Static) (c c' : Cfg) (h : stepMain st c = some c') : c'.tMain = c'.now ∧ c'.now = c.now := by
+  cases hc : c.code with
+  | nil => simp [stepMain, hc] at h
+  | cons i rest =>
+    cases i with
+    | prim p =>
+      simp only [stepMain, hc] at h
+      split at h <;> (cases h; exact ⟨rfl, rfl⟩)
+    | setVel s =>
+      simp only [stepMain, hc] at h
+      split at h <;> (cases h; exact ⟨rfl, rfl⟩)
+    | sleep d =>
+      simp only [stepMain, hc] at h
+      split at h
+      · cases h; exact ⟨rfl, rfl⟩
+      · split at h
+        · cases h; exact ⟨rfl, rfl⟩
+        · cases h
+    | cleanup s =>
+      cases s with
+      | join =>
+        simp only [stepMain, hc] at h
+        split at h
+        · cases h
+        · cases h; exact ⟨rfl, rfl⟩
+      | _ =>
+        simp only [stepMain, hc] at h
+        cases h; exact ⟨rfl, rfl⟩
+    | _ =>
+      simp only [stepMain, hc] at h
+      cases h; exact ⟨rfl, rfl⟩
+
+/-- the clock never passes the end of the commanding thread's sleep -/
+def SleepOK (c : Cfg) : Prop := ∀ d rest, c.code = .sleep d :: rest → 0 ≤ d → c.now ≤ c.tMain + d
+
+theorem sleepOK_step (st : Static) (c : Cfg) (t : Nat) (c' : Cfg) (inv : SleepOK c) (h : (machine st).step c t = some c') :
+    SleepOK c' := by
+  match t, h with
+  | 0, h =>
+    obtain ⟨h1, _⟩ := stepMain_tMain st c c' h
+    intro d rest _ hd
+    rw [h1]; linarith
+  | 1, h =>
+    have h' : stepThr st c = some c' := h
+    unfold stepThr at h'
+    split at h'
+    · split at h'
+      · cases h'; exact inv
+      · cases h'; exact inv
+      · split at h'
+        · cases h'; exact inv
+        · cases h'
+    · cases h'
+  | 2, h =>
+    have h' : stepClock c = some c' := h
+    unfold stepClock at h'
+    split at h'
+    · cases h'
+    · split at h'
+      · rename_i a hw ha
+        cases h'
+        intro d rest hc hd
+        have : a = c.tMain + d := by
+          unfold mainWake at hw; rw [hc] at hw; simp only [Option.some.injEq] at hw; exact hw.symm
+        show qmin a c.thr.deadline ≤ c.tMain + d
+        rw [← this]
+        unfold qmin; split
+        · exact le_refl _
+        · rename_i hle; exact le_of_lt (not_le.mp hle)
+      · rename_i a hw ha
+        cases h'
+        intro d rest hc hd
+        have : a = c.tMain + d := by
+          unfold mainWake at hw; rw [hc] at hw; simp only [Option.some.injEq] at hw; exact hw.symm
+        show a ≤ c.tMain + d
+        rw [this]
+      · rename_i hw ha
+        cases h'
+        intro d rest hc hd
+        unfold mainWake at hw; rw [hc] at hw; cases hw
+      · cases h'
+  | _ + 3, h => simp [machine] at h
+
+theorem sleepOK_run (st : Static) (code : List Instr) (sch : List Nat) (c : Cfg)
+    (h : run (machine st) (Cfg.start code) sch = some c) : SleepOK c := by
+  refine run_invariant (machine st) SleepOK (fun c t c' i hs => sleepOK_step st c t c' i hs) sch _ c ?_ h
+  intro d rest _ hd
+  show (0 : Q) ≤ 0 + d
+  linarith
+
 end CfVerif.C17
